@@ -118,7 +118,7 @@ def gen():
                   assert!(c.is_within_bounds());
                   {asserts}
                   """, [f"<rand::distributions::Standard as Distribution<{ty}>>::sample", f"<Standard as Distribution<{F}>>::sample (rand 0.8)"],
-                  RNG_BOUND + "; " + F, thorough=(F == "f64" and T in CYL))
+                  RNG_BOUND + "; " + F, thorough=False)
       for key, H in HUES:
         o.harness(f"c19_{key}_{F}_standard_in_bounds",
                   f"{H}<{F}>: a hue drawn from the Standard distribution is a raw angle in [0, 360) degrees",
@@ -400,23 +400,6 @@ def gen():
                             "rand::distributions::uniform::UniformFloat<f32>"], RNG_BOUND + "; the stated ends; f32", unwind=8)
     for incl in (False, True):
         kind = "new_inclusive" if incl else "new"
-        cmp = "<=" if incl else "<"
-        ty = CART[1]["ty"].format(F="f32")
-        o.harness(f"c19_luma_f32_uniform_{kind}_between_symbolic_ends",
-                  f"{ty}: Uniform::{kind}(lo, hi).sample(rng) through rand's real UniformFloat<f32> code lies in [lo, hi{']' if incl else ')'} for symbolic "
-                  f"ends and every RNG word. Ends restricted to hi - lo >= hi / 2, where rand's constructor loop (one ulp of scale per iteration) "
-                  f"provably ends within the unwinding bound; narrower ranges need up to 2^23 iterations and are covered at contract level only",
-                  f"""
-                  let lo: f32 = kani::any();
-                  let hi: f32 = kani::any();
-                  kani::assume(lo >= 0.0 && hi <= 1.0 && lo {cmp} hi && hi - lo >= hi * 0.5);
-                  let mut rng = AnyRng;
-                  let u = Uniform::{kind}(<{ty}>::new(lo), <{ty}>::new(hi));
-                  let s = u.sample(&mut rng);
-                  kani::cover!(true);
-                  assert!(lo <= s.luma && s.luma {cmp} hi);
-                  """, [f"<UniformLuma<f32> as UniformSampler>::{{{kind}, sample}}", "rand::distributions::uniform::UniformFloat<f32>"],
-                  RNG_BOUND + f"; all f32 ends with 0 <= lo {cmp} hi <= 1 and hi - lo >= hi / 2", unwind=5, thorough=True)
         o.harness(f"c19_rgbhue_f32_uniform_{kind}_on_arc_10_20",
                   f"palette::RgbHue<f32>: Uniform::{kind}(10 deg, 20 deg).sample(rng) through rand's real f32 code lies on the arc from 10 to 20 degrees "
                   f"for every RNG word (tolerance 1.25e-4 degrees)",
